@@ -27,7 +27,11 @@ class _BaseITML(MahalanobisMixin):
                     ' version 0.6.3 and will be removed in 0.7.0'
                     '', FutureWarning)
       tol = convergence_threshold
-    self.convergence_threshold = 'deprecated'  # Avoid errors
+    # the sentinel is stored as given: scikit-learn's clone compares
+    # constructor parameters by identity (e.g. after unpickling)
+    self.convergence_threshold = (
+        convergence_threshold if convergence_threshold == 'deprecated'
+        else 'deprecated')
     self.gamma = gamma
     self.max_iter = max_iter
     self.tol = tol
@@ -373,7 +377,10 @@ class ITML_Supervised(_BaseITML, TransformerMixin):
       n_constraints = num_constraints
     self.n_constraints = n_constraints
     # Avoid test get_params from failing (all params passed sholud be set)
-    self.num_constraints = 'deprecated'
+    # the sentinel is stored as given: scikit-learn's clone compares
+    # constructor parameters by identity (e.g. after unpickling)
+    self.num_constraints = (num_constraints if num_constraints == 'deprecated'
+                            else 'deprecated')
 
   def fit(self, X, y, bounds=None):
     """Create constraints from labels and learn the ITML model.
